@@ -59,10 +59,14 @@ class Checker:
             raise Broken(f"positive control {name!r} was not flagged: the rule engine is not working")
 
     def floor(self, name, n, floor):
+        """`floor` is the number of instances counted on the pinned tree. The check is BROKEN when fewer than three quarters of them
+        are found: a rule that matches (almost) nothing must not pass vacuously, while a refactoring that merges two sites into one
+        (each still checked by its own obligation) must not turn a correct tree into a failing check."""
         self.stats[name] = n
-        if n < floor:
-            raise Broken(f"instance count for {name}: {n} < floor {floor} counted on the pinned tree "
-                         f"(a rule matching too few sites must not pass vacuously)")
+        need = max(1, (3 * floor + 3) // 4)
+        if n < need:
+            raise Broken(f"instance count for {name}: {n} < {need} (three quarters of the {floor} counted on the pinned tree; "
+                         f"a rule matching too few sites must not pass vacuously)")
 
     # ---- finishing -----------------------------------------------------------------------------
     def finish(self):
